@@ -499,6 +499,11 @@ def _replay_failures(mod, case):
 def main(prop, tier, replay_path=None):
     import warnings
     warnings.simplefilter("ignore")  # e.g. re's FutureWarning on generated patterns
+    for stream in (sys.stdout, sys.stderr):  # a failure detail may quote an unpaired surrogate: report it, do not die printing it
+        try:
+            stream.reconfigure(errors="backslashreplace")
+        except Exception:  # noqa: BLE001
+            pass
     t0 = time.time()
     assert_tree()
     modname = "vf.checks." + prop.lower()
